@@ -106,6 +106,8 @@ def rope_eq(a, b):
         return b.eq_term(a)
     if a is None or b is None:
         return a is b
+    if type(a).__name__ == "ZBytes" or type(b).__name__ == "ZBytes":
+        return core.eq(a, b)
     return bytes(a) == bytes(b)
 
 
